@@ -168,6 +168,30 @@ def run(pid: str, tier: str, seed: int, *, replay: dict | None = None) -> int:
                 if not r2.ok:
                     ck.model_violation(r2, "BrokerInMem (refinement of BrokerAbs)")
                 ck.add_tlc(r2, f"BrokerInMem, {cfg2}: Conservation, TakenIffProcessing, refinement BrokerInMem => BrokerAbs (+ composite consume/finish steps)")
+            # the implementation-shaped specification of the RabbitMQ broker (client code + the AMQP server behaviour it relies
+            # on): its own invariants, refinement of the contract up to the recorded finding rabbit-prefetch-expiry
+            for cfg3 in (["MC_BrokerRabbit_quick.cfg"] if tier == "quick" else
+                         ["MC_BrokerRabbit_ttl.cfg", "MC_BrokerRabbit_nn.cfg", "MC_BrokerRabbit_topics.cfg", "MC_BrokerRabbit_nx.cfg",
+                          "MC_BrokerRabbit_nd.cfg"]):
+                r3 = tlc.run_tlc("MC_BrokerRabbit", cfg3, timeout=3000)
+                if not r3.ok:
+                    ck.model_violation(r3, "BrokerRabbit (refinement of BrokerAbs)")
+                ck.add_tlc(r3, f"BrokerRabbit, {cfg3}: Conservation, TagmapSound, HeldHasTag, LocalHasTag, OneStage, PrefetchBound, "
+                               "FinishedHoldsNothing, DueIsVisible, refinement BrokerRabbit => BrokerAbs (time-to-live judged at arrival)")
+        if pid == "C12":
+            # the recorded finding rabbit-prefetch-expiry at the level of the design: with the pinned algorithm TLC finds the
+            # hand-over of an expired message (strict refinement fails); with the check moved to the hand-over it holds
+            rp = tlc.run_tlc("MC_BrokerRabbit", "MC_BrokerRabbit_pinned_ttl.cfg", timeout=3000)
+            if rp.ok or rp.violated != "Refines":
+                raise tlc.MachineryError(f"BrokerRabbit (pinned): expected the strict refinement to fail on the time-to-live clause, got {rp.violated}")
+            ck.add_tlc(rp, "BrokerRabbit, pinned algorithm, strict refinement: TLC's counter-example is the recorded finding "
+                           "rabbit-prefetch-expiry (Start, Enqueue with ttl, Tick, ServerDeliver, Callback, Tick, Consume)")
+            ck.notes["rabbit_design_counterexample"] = [a for (a, _) in rp.trace][:10] if rp.trace else "see tlc_runs"
+            if tier == "thorough":
+                rh = tlc.run_tlc("MC_BrokerRabbit", "MC_BrokerRabbit_handover.cfg", timeout=3000)
+                if not rh.ok:
+                    ck.model_violation(rh, "BrokerRabbit (expiry at hand-over)")
+                ck.add_tlc(rh, "BrokerRabbit with the time-to-live judged at hand-over: strict refinement of BrokerAbs holds")
     lap('contract model-checked')
     # ---- 2. histories on the real broker ---------------------------------------------------
     if replay is not None:
@@ -283,6 +307,9 @@ def run(pid: str, tier: str, seed: int, *, replay: dict | None = None) -> int:
             from checks import replay_inmem
             replay_inmem.run_part(ck, tier, seed)
             lap("BrokerInMem behaviours replayed against the real broker")
+            from checks import replay_rabbit
+            replay_rabbit.run_part(ck, tier, seed)
+            lap("BrokerRabbit behaviours replayed against the real RabbitMQ broker on the fake server")
             from checks import suite_traces
             suite_traces.run_part(ck, tier)
             lap("executions of the repository's own test suite validated")
